@@ -137,6 +137,11 @@ func (c *containerServer) sendLoop() {
 			}
 			verifMsg(vpContSendPre, &rep.Reply, &rep.Msg)
 			err := c.socket.SendMsg(rep.Reply, rep.Msg)
+			if errors.Is(err, errPayloadTooLarge) {
+				// a reply that does not fit one message (e.g. the error texts of a large failing batch)
+				// fails that request, the transport is intact
+				err = c.socket.SendMsg(reply{Error: &errorReply{Msg: err.Error()}}, unixsocket.Msg{})
+			}
 			for _, f := range rep.FileToClose {
 				f.Close()
 			}
